@@ -66,4 +66,8 @@ PROPS = {
         {"id": "C02", "quick_n": 1500, "thorough_n": 100000, "quick_s": 60, "thorough_s": 900,
          "rule": "one logical table under two presentations (row permutation x delimiter x run size x workers x schedule x store) => equal ids, no new object on re-ingest; one mutation => different id; CLI: commit --set-file, rewrite permuted, commit => 'hasn't changed' with ref/reflog untouched; non-trivial = >=3 rows and presentations differ in >=2 knobs; distinct by plan hash"},
     ]},
+    "C13": {"level": "fault_enumeration", "profiles": [
+        {"id": "C13", "cpu": 4, "quick_n": 480, "thorough_n": 6000, "quick_s": 75, "thorough_s": 1500, "timeout": 300,
+         "rule": "operation (commit existing/new branch, merge ff / --no-ff / 3-way, prune) via in-process CLI on a generated pre-state; every prefix of the recorded write log (object store + ref store) materialised as a crash state, checked for I1-I4, operation re-run and compared with the uninterrupted run; error and disk-full modes fail every write position; every case is non-trivial (>=2 writes); distinct by plan hash"},
+    ]},
 }
